@@ -423,6 +423,27 @@ func (e *Explorer) merge(m *Machine) {
 		r.Forks[k] += v
 	}
 	for _, rc := range m.races {
+		// every distinct race is also a violation of the harness (label = field + the two functions involved)
+		fa, fb := rc.SiteA, rc.SiteB
+		if i := strings.Index(fa, "@"); i >= 0 {
+			fa = fa[:i]
+		}
+		if i := strings.Index(fb, "@"); i >= 0 {
+			fb = fb[:i]
+		}
+		fa, fb = shortFn(fa), shortFn(fb)
+		if fb < fa {
+			fa, fb = fb, fa
+		}
+		label := "data race on " + shortFn(rc.Field) + " between " + fa + " and " + fb
+		key := "race|" + label
+		if e.violSeen == nil {
+			e.violSeen = map[string]int{}
+		}
+		e.violSeen[key]++
+		if e.violSeen[key] <= 2 {
+			r.Violations = append(r.Violations, &Violation{Kind: "race", Label: label, Detail: rc.Kind + " " + rc.SiteA + " / " + rc.SiteB, Choices: append([]int{}, m.forced[:m.pos]...), Model: m.lastModel()})
+		}
 		dup := false
 		for _, o := range r.Races {
 			if o.SiteA == rc.SiteA && o.SiteB == rc.SiteB {
@@ -449,4 +470,21 @@ func (e *Explorer) merge(m *Machine) {
 			r.Samples = append(r.Samples, s)
 		}
 	}
+}
+
+func shortFn(s string) string {
+	s = strings.ReplaceAll(s, "github.com/basecamp/kamal-proxy/internal/server.", "")
+	s = strings.ReplaceAll(s, "github.com/basecamp/kamal-proxy/internal/", "")
+	return s
+}
+
+// lastModel: a witness for the inputs of the finished path (used for schedule-only violations).
+func (m *Machine) lastModel() map[string]any {
+	if m.solver.dead {
+		return nil
+	}
+	if m.solver.Check() == Sat {
+		return m.decodeInputs(m.solver.Model())
+	}
+	return nil
 }
